@@ -16,7 +16,7 @@ From DSW Require Import Spec BignumProofs ConvertProofs.
 (* lookups through updates of an abstract environment *)
 Ltac lk := repeat (rewrite lookup_update_same || (rewrite lookup_update_other by discriminate)).
 (* full symbolic execution of a loop-free statement *)
-Ltac step := cbn [exec eval lift seq rbind assign items bind_tuple builtin1_val builtin2_val binop_vals cmp_vals
+Ltac step := cbn [exec eval lift seq rbind assign items bind_tuple builtin1_val builtin2_val binop_vals binop_scalar cmp_vals cmp_scalar is_arr orb
                   truthy mixes_bool type_is].
 
 Section Conv.
@@ -39,9 +39,9 @@ Section Conv.
   Proof. reflexivity. Qed.
   Ltac ex := repeat first [rewrite exec_seq | rewrite exec_assign | rewrite exec_if | rewrite exec_for | rewrite exec_while
                           | rewrite exec_return | rewrite exec_raise].
-  Ltac ev := cbn [eval lift seq rbind assign items bind_tuple builtin1_val builtin2_val binop_vals cmp_vals
+  Ltac ev := cbn [eval lift seq rbind assign items bind_tuple builtin1_val builtin2_val binop_vals binop_scalar cmp_vals cmp_scalar is_arr orb
                   truthy mixes_bool type_is].
-  Ltac evc := cbn [eval lift seq rbind assign items bind_tuple builtin1_val builtin2_val binop_vals cmp_vals
+  Ltac evc := cbn [eval lift seq rbind assign items bind_tuple builtin1_val builtin2_val binop_vals binop_scalar cmp_vals cmp_scalar is_arr orb
                   truthy mixes_bool type_is lookup update String.eqb Ascii.eqb Bool.eqb].
 
   Lemma canonical_digits_ok d : canonical d -> digits_ok d.
@@ -61,7 +61,7 @@ Section Conv.
     Forall (fun a => 0 <= a <= 9) bits -> canonical d ->
     lookup "decimal_number" en = Ret (dstr d) ->
     lookup "verbose" en = Ret (VBool verbose) ->
-    lookup "bit_array" en = Ret (VList l0) ->
+    (lookup "bit_array" en = Ret (VList l0) \/ lookup "bit_array" en = Ret (VArr l0)) ->
     exists en', for_loop ce fuel (TTuple ["index"; "a_bit"]) b2n_str_body (enumerate_from i (map VInt bits)) en = ONormal en'
       /\ lookup "decimal_number" en' = Ret (dstr (fold_left (fun d a => calculus_addition (calculus_multiplication d 2) a) bits d)).
   Proof.
@@ -75,10 +75,11 @@ Section Conv.
       change (VStr [dchr a]) with (dstr [a]). rewrite ce_add by (try apply canonical_digits_ok; auto; lia).
       destruct (add_correct _ a HM ltac:(unfold digit; lia)) as [HS _].
       step. lk. rewrite HV. step.
-      rewrite HA. step.
-      match goal with |- context [ONormal ?E] => set (en1 := E) end.
-      assert (EQ : (if verbose then ONormal en1 else ONormal en1) = ONormal en1) by (destruct verbose; reflexivity).
-      rewrite EQ. cbn [seq fold_left]. apply IH; auto; unfold en1; lk; auto.
+      (* the monitor call reads len(bit_array): a list or a NumPy array, same length *)
+      destruct HA as [HA|HA]; rewrite HA; step;
+        (match goal with |- context [ONormal ?E] => set (en1 := E) end;
+         assert (EQ : (if verbose then ONormal en1 else ONormal en1) = ONormal en1) by (destruct verbose; reflexivity);
+         rewrite EQ; cbn [seq fold_left]; apply IH; auto; unfold en1; lk; auto).
   Qed.
 
   Theorem bit_to_number_str_gen : forall fuel bits verbose, Forall (fun a => 0 <= a <= 9) bits ->
@@ -89,7 +90,20 @@ Section Conv.
     destruct (b2n_str_loop fuel verbose (map VInt bits) bits 0 [0]
       [("bit_array", vints bits); ("is_string", VBool true);
                 ("verbose", VBool verbose); ("monitor", VOpaque);
-                ("decimal_number", VStr [48])] HB canonical_0 eq_refl eq_refl eq_refl) as [en' [EL HL]].
+                ("decimal_number", VStr [48])] HB canonical_0 eq_refl eq_refl (or_introl eq_refl)) as [en' [EL HL]].
+    unfold b2n_str_body in EL. rewrite EL. evc. ex. evc. rewrite HL. reflexivity.
+  Qed.
+
+  (* the same function on a NumPy array of bits (what encode of dsw/spiderweb.py passes) *)
+  Theorem bit_to_number_str_gen_arr : forall fuel bits verbose, Forall (fun a => 0 <= a <= 9) bits ->
+    run_fun ce fuel bit_to_number_def [varr bits; VBool true; VBool verbose] = Ret (dstr (bit_to_number_str bits)).
+  Proof.
+    intros fuel bits verbose HB. unfold run_fun. cbn [params body bind_params bit_to_number_def].
+    ex. evc. ex. evc. ex. evc. unfold varr at 1. evc.
+    destruct (b2n_str_loop fuel verbose (map VInt bits) bits 0 [0]
+      [("bit_array", varr bits); ("is_string", VBool true);
+                ("verbose", VBool verbose); ("monitor", VOpaque);
+                ("decimal_number", VStr [48])] HB canonical_0 eq_refl eq_refl (or_intror eq_refl)) as [en' [EL HL]].
     unfold b2n_str_body in EL. rewrite EL. evc. ex. evc. rewrite HL. reflexivity.
   Qed.
 
@@ -153,7 +167,7 @@ Section Conv.
   (* ---- primitive operations ------------------------------------------------------------------------------------- *)
   Lemma cmp_ne_zero d : cmp_vals CNe (dstr d) (VStr [48]) = Ret (VBool (negb (is_zero_str d))).
   Proof.
-    unfold dstr, cmp_vals, mixes_bool, val_eqb. do 3 f_equal.
+    unfold dstr, cmp_vals, cmp_scalar, mixes_bool, is_arr, val_eqb; cbn [orb]. do 3 f_equal.
     destruct d as [|x [|y t]]; cbn [map listZ_eqb is_zero_str]; [reflexivity| |].
     - unfold dchr. rewrite andb_true_r. destruct (48 + x =? 48) eqn:E; destruct x; try reflexivity; lia.
     - rewrite andb_false_r. destruct x; reflexivity.
@@ -492,6 +506,7 @@ Section Conv.
 End Conv.
 
 Print Assumptions bit_to_number_str_gen.
+Print Assumptions bit_to_number_str_gen_arr.
 Print Assumptions bit_to_number_int_gen.
 Print Assumptions number_to_bit_str_gen.
 Print Assumptions number_to_bit_int_gen.
